@@ -217,7 +217,8 @@ func (fr *frame) instr(b *ssa.BasicBlock, in ssa.Instruction, reach Term, h Heap
 		fr.bind(in, Val{ts: []Term{r}})
 		return h
 	case *ssa.Send:
-		return h
+		// channel sends are observable events: ghost counters may watch them (pattern send:<channel variable>)
+		return fr.countSend(in, h)
 	case *ssa.Select:
 		// (index int, recvOk bool, r_0 T_0, ...): nondeterministic choice
 		v := x.freshVal("select", in.Type())
